@@ -161,7 +161,34 @@ func sameSlotValue(a, b ssa.Value) bool {
 	}
 	la, ok1 := a.(*ssa.UnOp)
 	lb, ok2 := b.(*ssa.UnOp)
-	if !ok1 || !ok2 || la.Op != token.MUL || lb.Op != token.MUL || la.X != lb.X {
+	if !ok1 || !ok2 || la.Op != token.MUL || lb.Op != token.MUL {
+		return false
+	}
+	// the same element of the same list, re-read (ranges[i] written out twice) in a function that writes no
+	// element of that type and calls nothing but len/cap
+	if ia, ok := la.X.(*ssa.IndexAddr); ok {
+		ib, ok := lb.X.(*ssa.IndexAddr)
+		if !ok || ia.Index != ib.Index || !sameSlotValue(ia.X, ib.X) && ia.X != ib.X || la.Parent() == nil || la.Parent() != lb.Parent() {
+			return false
+		}
+		et := ia.Type().Underlying().(*types.Pointer).Elem()
+		for _, blk := range la.Parent().Blocks {
+			for _, in := range blk.Instrs {
+				switch t := in.(type) {
+				case *ssa.Store:
+					if sa, ok := t.Addr.(*ssa.IndexAddr); ok && types.Identical(sa.Type().Underlying().(*types.Pointer).Elem(), et) {
+						return false
+					}
+				case ssa.CallInstruction:
+					if bi, ok := t.Common().Value.(*ssa.Builtin); !ok || (bi.Name() != "len" && bi.Name() != "cap") {
+						return false
+					}
+				}
+			}
+		}
+		return true
+	}
+	if la.X != lb.X {
 		return false
 	}
 	al, ok := la.X.(*ssa.Alloc)
